@@ -60,7 +60,8 @@ static void tfd_fire(int i)
 {
 	uint64_t one = 1;
 	tfds[i].armed = 0;
-	if (write(tfds[i].fd, &one, 8) != 8) { /* counter overflow impossible here */ }
+	/* raw system call: read/write may be interposed by the scheduler engine */
+	__real_syscall(SYS_write, (long)tfds[i].fd, (long)&one, 8L);
 }
 void vk_advance_to(int64_t t)
 {
@@ -219,7 +220,7 @@ int __wrap_timerfd_settime(int fd, int flags, const struct itimerspec *nv, struc
 		int err = fault(VKS_TIMERFD_SETTIME);
 		if (err) { errno = err; return -1; }
 		uint64_t cnt;
-		while (read(fd, &cnt, 8) == 8) ;      /* settime resets the expiration count */
+		while (__real_syscall(SYS_read, (long)fd, (long)&cnt, 8L) == 8) ;      /* settime resets the expiration count */
 		int64_t v = vk_ts_ns(&nv->it_value);
 		if (!(flags & TFD_TIMER_ABSTIME) && v) v += vnow;
 		tfds[i].armed = v != 0; tfds[i].deadline = v;
